@@ -151,6 +151,79 @@ theorem read_eof_iff (q : Q) : (q.step .read).2 = .eof ↔ q.items = [] := by
   | nil => simp
   | cons x xs => simp
 
+/-- the abstraction commutes with whole call sequences, not only with the outputs -/
+theorem run_abs (ops : List Op) : ∀ (b : RB), Inv b →
+    (runI b ops).1.abs = (runS b.abs ops).1 := by
+  induction ops with
+  | nil => intro b _; rfl
+  | cons op ops ih =>
+    intro b h
+    obtain ⟨_, h2, h3⟩ := step_refines b op h
+    have i1 := ih (b.step op).1 h3
+    simp only [runI, runS]
+    rw [h2] at i1
+    exact i1
+
+/-- one queue call keeps the capacity and never stores more than `cap` elements -/
+theorem q_step_bounded (q : Q) (op : Op) (h : q.items.length ≤ q.cap) :
+    (q.step op).1.cap = q.cap ∧ (q.step op).1.items.length ≤ q.cap := by
+  cases op with
+  | write v =>
+    simp only [Q.step]
+    by_cases hc : q.items.length = q.cap
+    · simp [hc]
+    · simp [hc]; omega
+  | read =>
+    simp only [Q.step]
+    cases hq : q.items with
+    | nil => simp; exact h
+    | cons x xs => simp [hq] at h ⊢; omega
+  | readN k => simp [Q.step]; omega
+  | skip n => simp [Q.step]; omega
+  | «at» i =>
+    simp only [Q.step]
+    by_cases hi : i < 0 ∨ i ≥ (q.items.length : Int)
+    · simp [hi, h]
+    · simp [hi, h]
+  | clear => simp [Q.step]
+  | len => simp [Q.step, h]
+  | cap => simp [Q.step, h]
+
+theorem q_run_bounded (ops : List Op) : ∀ (q : Q), q.items.length ≤ q.cap →
+    (runS q ops).1.cap = q.cap ∧ (runS q ops).1.items.length ≤ q.cap := by
+  induction ops with
+  | nil => intro q h; exact ⟨rfl, h⟩
+  | cons op ops ih =>
+    intro q h
+    obtain ⟨h1, h2⟩ := q_step_bounded q op h
+    have i := ih (q.step op).1 (by rw [h1]; exact h2)
+    simp only [runS]
+    rw [h1] at i
+    exact i
+
+/-- C14.bounded: after any call sequence on a buffer of capacity `size`, `Cap()` is still `size`
+and `Len()` never exceeds it — "bounded" holds of the implementation model, not only of the spec. -/
+theorem bounded (size : Nat) (ops : List Op) :
+    (runI (RB.new size) ops).1.cap = size ∧ (runI (RB.new size) ops).1.len ≤ size := by
+  have h := new_inv size
+  have ha := run_abs ops _ h.1
+  rw [h.2] at ha
+  have hb := q_run_bounded ops { cap := size, items := [] } (by simp)
+  rw [← ha] at hb
+  simpa [RB.abs, toList_length] using hb
+
+/-- C14.never_diverges: no call of any sequence runs a loop out of fuel, and only `At` can panic. -/
+theorem never_diverges (size : Nat) (ops : List Op) :
+    Out.diverge ∉ (runI (RB.new size) ops).2 := by
+  rw [refines_queue]
+  generalize ({ cap := size, items := [] } : Q) = q
+  induction ops generalizing q with
+  | nil => simp [runS]
+  | cons op ops ih =>
+    simp only [runS, List.mem_cons, not_or]
+    refine ⟨?_, ih _⟩
+    cases op <;> simp only [Q.step] <;> (try split) <;> simp
+
 /-- non-vacuity: a reachable wrapped state satisfies the invariant's premises -/
 example : (runI (RB.new 2) [.write 1, .write 2, .read, .write 3, .read]).1 = { buf := [0, 0, 3], r := 2, w := 0 } := by
   decide
